@@ -9,6 +9,8 @@ A case is one life of a small Burrow: configuration + a list of events
     ("S", cluster, group, order)            two evaluator requests for (cluster, group): order 0 = full view then
                                             problems-only view, 1 = the reverse
     ("L", cluster)                          the consumer list of the cluster (StorageFetchConsumers)
+    ("P", cluster, [[(order, key, value, tag)]])  a batch decoded concurrently, one goroutine per list; the lists address
+                                            pairwise disjoint groups
 
 Case line / output formats: /verif/ocaml/drv_pipeline.ml.  The part of a Y event behind "@" (what the REAL cluster module
 emitted in that cycle) is filled in by `render` from the output of the cluster probe (phase 1 of the check).
@@ -60,13 +62,17 @@ def cycle_tokens(cyc):
 
 
 def cluster_lines(case):
-    """one `scn` line per cluster that has at least one cycle: (cluster id, line)"""
+    """one scenario line per cluster that has at least one cycle: (cluster id, line).  Kind sc2 of the cluster probe: the
+    module is configured through the real Configure with the scenario's client-profile kafka-version (index into
+    clustergen.KAFKA_VERSIONS; the scripted broker answers in the wire format of the request version it is asked in),
+    buffered storage channel, no storage stall; rp / rm (reaper tick, failing RefreshMetadata call) as generated."""
     out = []
     for c, _, _ in case["clusters"]:
         cycles = [ev[2] for ev in case["events"] if ev[0] == "Y" and ev[1] == c]
         if cycles:
-            toks = ["scn", str(len(cycles))]
+            toks = ["sc2", str(cycles[0].get("kv", 0)), str(len(cycles))]
             for cyc in cycles:
+                toks += ["0", "0", "1" if cyc.get("rp") else "0", "1" if cyc.get("rm") else "0"]
                 toks += cycle_tokens(cyc)
             out.append((c, " ".join(toks)))
     return out
@@ -91,6 +97,12 @@ def render(case, cluster_out):
             toks += ["S", str(ev[1]), hx(ev[2]), str(ev[3])]
         elif ev[0] == "L":
             toks += ["L", str(ev[1])]
+        elif ev[0] == "P":
+            toks += ["P", str(ev[1]), str(len(ev[2]))]
+            for lst in ev[2]:
+                toks.append(str(len(lst)))
+                for (o, k, v, _) in lst:
+                    toks += [str(o), hx(k), hx(v)]
         elif ev[0] == "Y":
             c = ev[1]
             k = seen.get(c, 0)
@@ -123,9 +135,12 @@ def _scenario(rng, bias):
     ErrNoError answer (clustergen scripts the others on purpose: 'weird', 'scnx')"""
     for _ in range(200):
         line, tags = clustergen.gen_scenario(rng, 0, bias=bias, crash_p=0.0)
-        if line.startswith("scnx") or any(t.startswith("weird:") for t in tags):
+        if line.split()[0] in ("scnx", "sc2x") or any(t.startswith("weird:") for t in tags):
             continue
-        return clustergen.parse(line), tags
+        cycles = clustergen.parse(line)
+        if cycles and cycles[0].get("rp"):
+            cycles[0]["rp"] = False          # the reaper tick follows a cycle that went through mainLoop, not Start()'s
+        return cycles, tags
     raise RuntimeError("no acceptable cluster scenario")
 
 
@@ -187,10 +202,50 @@ def _hostile(rng):
     return key, value, "hostile:" + tags[-1].split(":")[0]
 
 
+PAR_PREFIX = [b"pa", b"a-p", b"xp", b"bp", b"p"]
+
+
+def _batch(rng, c, now, cf, world, nparts, good, order0):
+    """a concurrent batch for cluster c: 8-16 goroutines, each with 6-30 messages for its OWN group: commits in ascending
+    log position on the partitions the brokers answered (names, topics, offsets differ between goroutines, so a decoder that
+    shares state between goroutines mixes them up visibly), own commits cut short, a few metadata messages"""
+    ngo = rng.randrange(8, 17)
+    known = sorted(t for (cc, t) in world if cc == c)
+    lists, groups = [], []
+    for i in range(ngo):
+        g = rng.choice(PAR_PREFIX) + b"%d" % i + (b"b" if rng.random() < 0.2 else b"")
+        groups.append(g)
+        msgs = []
+        o = order0 + i * 100000
+        for _ in range(rng.randrange(6, 31)):
+            o += rng.choice([1, 1, 2, 7])
+            r = rng.random()
+            if known:
+                t = rng.choice(known)
+                n = max(1, nparts.get((c, t), 1))
+                p = rng.choice(good[(c, t)]) if good.get((c, t)) and rng.random() < 0.85 else rng.randrange(0, n)
+                b = world[(c, t)].get(p, 1000)
+                topic = topic_name(t)
+            else:
+                topic, p, b = b"t1", 0, 1000
+            key, value = _commit_msg(g, topic, p, _near(rng, b), now * 1000 + rng.choice([0, 1, -1, 500, -2000]), rng)
+            tag = "commit"
+            if r < 0.08 and len(value) > 2:
+                value, tag = value[:rng.randrange(0, len(value))], "hostile:own-commit-truncated-value"
+            elif r < 0.12:
+                key, tag = key[:rng.randrange(0, len(key))], "hostile:own-commit-truncated-key"
+            elif r < 0.2:
+                key, value = _meta_msg(g, rng, {tt: nn for (cc, tt), nn in nparts.items() if cc == c})
+                tag = "metadata"
+            msgs.append((o, key, value, tag))
+        lists.append(msgs)
+    return ("P", c, lists), groups
+
+
 def gen_case(rng, focus=None):
     """-> case dict with keys config, clusters [(id, reader allow, reader deny)], events, tags"""
     if focus is None:
-        focus = rng.choice(["mix", "mix", "mix", "lag", "lag", "lists", "expiry", "hostile", "topics"])
+        focus = rng.choice(["mix", "mix", "mix", "lag", "lag", "lists", "expiry", "hostile", "topics", "conc"])
     tags = {"focus:" + focus}
     cf = dict(intervals=rng.choice([1, 2, 3, 3, 5, 10]), expire=rng.choice([604800, 604800, 3600, 300]),
               mindist=rng.choice([0, 0, 0, 1, 5]), minimum=rng.choice(MIN_COMPLETE), allowed=rng.choice([0, 0, 0, 10, 1000, 2 ** 40]),
@@ -241,10 +296,23 @@ def gen_case(rng, focus=None):
             do_cycle(c)
     nev = rng.randrange(8, 45)
     kw = {"mix": (0.5, 0.18, 0.14, 0.1), "lag": (0.62, 0.2, 0.1, 0.03), "lists": (0.55, 0.1, 0.25, 0.05),
-          "expiry": (0.45, 0.1, 0.2, 0.05), "hostile": (0.3, 0.1, 0.15, 0.4), "topics": (0.4, 0.3, 0.2, 0.05)}[focus]
-    for _ in range(nev):
+          "expiry": (0.45, 0.1, 0.2, 0.05), "hostile": (0.3, 0.1, 0.15, 0.4), "topics": (0.4, 0.3, 0.2, 0.05),
+          "conc": (0.45, 0.2, 0.2, 0.05)}[focus]
+    batch_groups = []
+    batch_at = set()
+    if focus == "conc" or rng.random() < 0.04:
+        batch_at = set(rng.sample(range(nev), min(nev, rng.choice([1, 1, 2]))))
+        tags.add("concurrent-batch")
+    for ei in range(nev):
         r = rng.random()
         c = rng.choice(clusters)[0]
+        if ei in batch_at:
+            ev, bg = _batch(rng, c, now, cf, world, nparts, good, min(I64MAX - 10 ** 8, max(0, order[c])) + 10 ** 6)
+            events.append(ev)
+            pick = rng.sample(bg, min(len(bg), 4))
+            for g in pick:
+                events.append(("S", c, g, rng.randrange(0, 2)))
+            batch_groups += [(c, g) for g in pick[:2]]
         if rng.random() < (0.5 if focus == "expiry" else 0.3):
             step = rng.choice([0, 1, 1, 5, 30, 61])
             if focus == "expiry" and rng.random() < 0.3:
@@ -360,7 +428,7 @@ def gen_case(rng, focus=None):
     for c, _, _ in clusters:
         if rng.random() < 0.5:
             events.append(("L", c))
-        for g in groups:
+        for g in groups + [g for (cc, g) in batch_groups if cc == c]:
             events.append(("S", c, g, rng.randrange(0, 2)))
         if rng.random() < 0.5:
             events.append(("L", c))
@@ -608,6 +676,12 @@ class Oracle:
                 self.cycle(ev[1], ev[2])
             elif ev[0] == "K":
                 self.message(ev[1], ev[2], ev[3], ev[4])
+            elif ev[0] == "P":
+                # disjoint groups per goroutine: any interleaving that keeps each list's order gives the same commits per group
+                for lst in ev[2]:
+                    for (o, k, v, _) in lst:
+                        self.message(ev[1], o, k, v)
+                self.stats["concurrent_messages"] = self.stats.get("concurrent_messages", 0) + sum(len(l) for l in ev[2])
             elif ev[0] == "L":
                 if si + 1 > len(segs):
                     fails.append("event %d: no answer recorded" % i)
@@ -647,4 +721,11 @@ def describe(case):
             out.append("S cluster=k%d group=%r order=%d" % (ev[1], ev[2], ev[3]))
         elif ev[0] == "L":
             out.append("L cluster=k%d" % ev[1])
+        elif ev[0] == "P":
+            out.append("P cluster=k%d concurrently, one goroutine per list:" % ev[1])
+            for i, lst in enumerate(ev[2]):
+                for (o, k, v, tag) in lst:
+                    cm = wiregen.strict_commit(k, v)
+                    out.append("    goroutine %d: position=%d key=%s value=%s [%s%s]" % (i, o, hx(k), hx(v), tag,
+                               "" if cm is None else ": group %r topic %r partition %d offset %d ts %d" % cm))
     return out
